@@ -27,6 +27,29 @@ Proof.
 Qed.
 Print Assumptions C07_iter_merge.
 
+(* What UnionIter guarantees from the iterator contract ALONE: the two inputs are strictly sorted in the
+   iteration direction (ascending for Iter, descending for IterReverse) — nothing about bounds or values is
+   assumed. The output is strictly sorted in that direction, contains exactly the overlay pairs (buffer entry
+   wins, a buffered tombstone hides the snapshot entry, an empty SNAPSHOT value would be passed through), and
+   every yielded key was yielded by one of the inputs — so whatever bounds the two inner iterators respect,
+   the union iterator respects; no key is invented, repeated or skipped. *)
+Theorem C07_iter_contract : forall rv d s, dsorted rv d -> dsorted rv s ->
+  dsorted rv (union_iter rv d s) /\
+  (forall k v, In (k, v) (union_iter rv d s) <-> overlay_get s d k = Some v) /\
+  (forall k v, In (k, v) (union_iter rv d s) -> In (k, v) d \/ In (k, v) s).
+Proof.
+  intros rv d s Hd Hs. rewrite union_iter_merge.
+  assert (So : dsorted rv (merge rv d s)) by (apply dsorted_merge; assumption).
+  assert (M : forall k v, In (k, v) (merge rv d s) <-> overlay_get s d k = Some v).
+  { intros k v. rewrite <- (kv_get_In rv _ k v So), (kv_get_merge rv k d s Hd Hs). reflexivity. }
+  split; [exact So|]. split; [exact M|].
+  intros k v H. apply M in H. unfold overlay_get in H.
+  destruct (kv_get d k) as [w|] eqn:G.
+  - destruct (is_tomb w); [discriminate|]. injection H as <-. left. apply (kv_get_In rv d k w Hd). exact G.
+  - right. apply (kv_get_In rv s k v Hs). exact H.
+Qed.
+Print Assumptions C07_iter_contract.
+
 (* Get: buffer first, snapshot on miss, empty = not exist  ==  lookup in the overlay *)
 Theorem C07_get : forall snap buf k, sorted buf -> sorted snap -> no_tomb snap ->
   union_get snap buf k = kv_get (overlay snap buf) k.
@@ -166,3 +189,11 @@ Example revert_example :
   m_get [] (run false ops st) [97] = Some [2; 2] /\
   m_get [] (step false (run false ops st) (ORevert (checkpoint_pos st))) [97] = Some [1; 1].
 Proof. split; [repeat constructor; cbn; lia|]. split; vm_compute; reflexivity. Qed.
+
+(* reverse iteration with bounds on inputs that are only sorted descending (the contract of IterReverse) *)
+Example iter_contract_example :
+  let d := [([98], [7]); ([97; 255], []); ([97], [9])] in          (* buffer iterator, descending, one tombstone *)
+  let s := [([99], [1]); ([97; 255], [2]); ([97; 0], [3]); ([97], [4])] in   (* snapshot iterator, descending *)
+  dsorted true d /\ dsorted true s /\
+  union_iter true d s = [([99], [1]); ([98], [7]); ([97; 0], [3]); ([97], [9])].
+Proof. repeat split; try (repeat constructor); vm_compute; reflexivity. Qed.
